@@ -74,7 +74,7 @@ def run(ctx):
         R.run_records(ctx, "C01", 240, exhaustive_n=0, field=2)
     else:
         match_storms_stream(ctx, 40000)
-        R.run_records(ctx, "C01", 3000, exhaustive_n=5, field=12)
+        R.run_records(ctx, "C01", 1500, exhaustive_n=4, field=8)
 
 
 def replay(ctx, doc):
